@@ -1,4 +1,5 @@
 import Sentinel.Lemmas.FlowReject
+import Sentinel.Lemmas.FlowRejectConc
 /-!
 # C02 — a reject-mode QPS flow rule admits exactly up to the threshold per statistic window
 (property theorems only; the refinement lemmas live in `Sentinel/Lemmas/FlowReject.lean`)
@@ -116,6 +117,85 @@ theorem blocked_consumes_nothing {infos : List RuleInfo} {s : St} {H : List Arri
 theorem reachable_rep (rules : List Rule) (t0 : Nat) (h0 : 0 < t0) (as : List Arrival) (hm : MonoA t0 as) :
     ∃ latest, t0 ≤ latest ∧ Rep (compile rules) (runEntries (load rules t0) as).1 (refRun RuleInfo.feed (compile rules) [] as).1 latest :=
   (runEntries_eq_refRun (load_rep rules t0 h0) h0 as hm).2
+
+
+/-! ## concurrent part: `k` callers inside the admission path
+
+The yield point `chain.between-check-and-stat` splits an entry into its check phase and its statistic
+phase; `runSched s now ths sched` executes the threads `ths` under the schedule `sched` (any interleaving
+of those phases) on the code-shaped model, `refRunSched` does the same on the array-free reference, where
+the admitted history grows when an admitted thread *records*. -/
+
+/-- **tie at yield-point granularity**: for every reachable state, every set of threads (any number, any
+resources, any batches) and every schedule, the model's per-thread decisions are those of the reference small step. -/
+theorem sched_eq_ref (rules : List Rule) (t0 : Nat) (h0 : 0 < t0) (as : List Arrival) (hm : MonoA t0 as)
+    (now : Nat) (hle : ∀ x ∈ as, x.t ≤ now) (hle0 : t0 ≤ now)
+    (ths : List Thread) (hfresh : ∀ th ∈ ths, th.st = none) (sched : List Nat) :
+    (runSched (runEntries (load rules t0) as).1 now ths sched).2 =
+      (refRunSched RuleInfo.feed (compile rules) (refRun RuleInfo.feed (compile rules) [] as).1 now ths sched).2 := by
+  obtain ⟨l, hl, hl0, rep⟩ := runEntries_rep_le (load_rep rules t0 h0) h0 now hle0 as hm hle
+  exact (runSched_eq_ref rep hl (lt_of_lt_of_le hl0 hl) ths
+    (fun th hth d hd => by rw [hfresh th hth] at hd; cases hd) sched).1
+
+/-- **overshoot bound of a burst** (reference small step, any number of threads, any schedule that keeps at
+most `k` callers between check and record): for a rule that counts its own resource and has the finite cap
+`t = ⌊T⌋`, if the window held at most `t` tokens before the burst then after it the window holds at most
+`t + (k-1)·B` tokens, `B` = the largest batch. -/
+theorem burst_overshoot (f : RuleInfo → Nat) (cs : List RuleInfo) (c : RuleInfo) (hc : c ∈ cs) (hf : f c = c.rule.res)
+    (t : Nat) (hcap : c.rule.thr.cap = some t) (k B now : Nat) (H : List Arrival)
+    (h0 : windowTokens H c.rule.res c.L c.Iv now ≤ t)
+    (ths : List Thread) (hfresh : ∀ th ∈ ths, th.st = none) (hB : ∀ th ∈ ths, th.b ≤ B)
+    (sched : List Nat) (hw : WidthOk k f cs H now ths sched) :
+    windowTokens (refRunSched f cs H now ths sched).1 c.rule.res c.L c.Iv now ≤ t + (k - 1) * B := by
+  have hz : (ths.map (pending c.rule.res)).sum = 0 := by
+    apply List.sum_eq_zero
+    intro x hx
+    obtain ⟨th, hth, rfl⟩ := List.mem_map.mp hx
+    simp [pending, hfresh th hth]
+  have bu : Burst f cs c t k B now H ths := ⟨by rw [hz]; omega, hB⟩
+  have := (bu.run hc hf hcap sched hw).bound
+  omega
+
+/-- the same bound read off the **model's** counter: after the burst the controller's window sum
+(`readOnlyMetric.GetSum(pass)` on the leap array) is at most `t + (k-1)·B`. -/
+theorem burst_overshoot_model {infos : List RuleInfo} {s : St} {H : List Arrival} {latest : Nat}
+    (rep : Rep infos s H latest) (now : Nat) (hle : latest ≤ now) (h0 : 0 < now)
+    (ths : List Thread) (hfresh : ∀ th ∈ ths, th.st = none) (B : Nat) (hB : ∀ th ∈ ths, th.b ≤ B)
+    (k : Nat) (sched : List Nat) (hw : WidthOk k RuleInfo.feed infos H now ths sched)
+    (c : Ctrl) (hc : c ∈ (runSched s now ths sched).1.ctrls) (hown : c.info.feed = c.rule.res)
+    (t : Nat) (hcap : c.rule.thr.cap = some t)
+    (hbefore : windowTokens H c.rule.res c.info.L c.info.Iv now ≤ t) :
+    c.cur (runSched s now ths sched).1.nodes now ≤ t + (k - 1) * B := by
+  obtain ⟨_, rep'⟩ := runSched_eq_ref rep hle h0 ths
+    (fun th hth d hd => by rw [hfresh th hth] at hd; cases hd) sched
+  rw [rep'.cur_eq (le_refl _) c hc, hown]
+  have hci : c.info ∈ infos := by rw [← rep'.shape]; exact List.mem_map_of_mem hc
+  exact burst_overshoot RuleInfo.feed infos c.info hci hown t hcap k B now H hbefore ths hfresh hB sched hw
+
+/-- **any number of threads, any schedule, window rolls at any moment** (abstract small step with
+batches as weights): if at most `k` threads are between check and record, the window sum never exceeds
+`T + (k-1)·B`. -/
+theorem overshoot_any_schedule (T k B S0 : Nat) (hS : S0 ≤ T) (bs : List Nat) (hB : ∀ b ∈ bs, b ≤ B) (acts : List Abs.Act) :
+    (Abs.run T k { S := S0, th := bs.map fun b => { b := b, pc := .idle } } acts).S ≤ T + (k - 1) * B := by
+  have hz : ((bs.map fun b => ({ b := b, pc := .idle } : Abs.AThread)).map Abs.owed).sum = 0 := by
+    apply List.sum_eq_zero
+    intro x hx
+    simp only [List.map_map, List.mem_map, Function.comp] at hx
+    obtain ⟨b, _, rfl⟩ := hx
+    simp [Abs.owed]
+  have inv : Abs.Inv T k B { S := S0, th := bs.map fun b => { b := b, pc := .idle } } :=
+    ⟨by dsimp only; rw [hz]; omega, by
+      intro t ht
+      simp only [List.mem_map] at ht
+      obtain ⟨b, hb, rfl⟩ := ht
+      exact hB b hb⟩
+  have := (Abs.run_inv T k B _ acts inv).pot
+  omega
+
+/-- the bound is attained: threshold 1, two callers of batch 1 both checked before either records → 2 = 1 + (2-1)·1 -/
+theorem overshoot_tight :
+    (Abs.run 1 2 { S := 0, th := [⟨1, .idle⟩, ⟨1, .idle⟩] } [.thread 0, .thread 1, .thread 0, .thread 1]).S = 2 := by
+  decide
 
 /-! ## the known finding `assoc-standalone-own-traffic` -/
 
